@@ -332,6 +332,61 @@ def gen_case(rng, style, mag, rect=None):
             P.reverse()
         k = rng.below(len(P))
         P = P[k:] + P[:k]
+    elif style == 'polyomino':
+        # boundary of a random simply connected set of grid cells around the rectangle (the rectangle covers 3x3 cells of a
+        # 7x7 grid): a SIMPLE rectilinear polygon with many vertices whose edges constantly run along the side lines, end at
+        # corners, hug the rectangle from outside or inside -- the everyday CAD case of the winding clause
+        s = rng.choice([1, 2, 8, max(1, mag // 8)])
+        ox, oy = (rng.range(-mag, mag), rng.range(-mag, mag)) if mag > 100 else (0, 0)
+        r = [ox, oy, ox + 3 * s, oy + 3 * s]
+        for _try in range(20):
+            N = 7
+            cells = {(rng.range(0, N - 1), rng.range(0, N - 1))}
+            for _ in range(rng.choice([2, 4, 6, 9, 12, 16, 22, 30])):
+                ci, cj = rng.choice(sorted(cells))
+                di, dj = rng.choice([(1, 0), (-1, 0), (0, 1), (0, -1)])
+                if 0 <= ci + di < N and 0 <= cj + dj < N:
+                    cells.add((ci + di, cj + dj))
+            edges = set()
+            for (i, j) in cells:
+                for e in (((i, j), (i + 1, j)), ((i + 1, j), (i + 1, j + 1)), ((i + 1, j + 1), (i, j + 1)), ((i, j + 1), (i, j))):
+                    if (e[1], e[0]) in edges:
+                        edges.discard((e[1], e[0]))
+                    else:
+                        edges.add(e)
+            nxt = {}
+            ok = True
+            for a, b in edges:
+                if a in nxt:
+                    ok = False      # pinch point
+                    break
+                nxt[a] = b
+            if not ok or not nxt:
+                continue
+            start = min(nxt)
+            cyc, v = [start], nxt[start]
+            while v != start and len(cyc) <= len(nxt):
+                cyc.append(v)
+                v = nxt[v]
+            if len(cyc) != len(nxt):
+                continue            # a hole: more than one boundary cycle
+            keep_collinear = rng.chance(1, 3)
+            Q = []
+            for k in range(len(cyc)):
+                a, b, c = cyc[k - 1], cyc[k], cyc[(k + 1) % len(cyc)]
+                straight = (b[0] - a[0]) * (c[1] - b[1]) - (b[1] - a[1]) * (c[0] - b[0]) == 0
+                if not straight or (keep_collinear and rng.chance(1, 2)):
+                    Q.append(b)
+            if len(Q) < 4:
+                continue
+            P = [(ox + (x - 2) * s, oy + (y - 2) * s) for x, y in Q]
+            break
+        else:
+            P = [(ox - s, oy - s), (ox + s, oy - s), (ox + s, oy + s), (ox - s, oy + s)]
+        if rng.chance(1, 2):
+            P.reverse()
+        k = rng.below(len(P))
+        P = P[k:] + P[:k]
     else:
         raise ValueError(style)
     P = [(clamp(x), clamp(y)) for x, y in P]
@@ -406,7 +461,7 @@ def gen_group(rng, mag):
     return [dict(rect=list(r), path=gen_group_path(rng, r, k, mag), style='group:' + k, mag=mag) for k in kinds]
 
 
-STYLES = ['star', 'enclose', 'spiral', 'snake', 'rectil', 'corner', 'star', 'snake', 'hugout'] + C09.STYLES
+STYLES = ['star', 'enclose', 'spiral', 'snake', 'rectil', 'corner', 'star', 'snake', 'hugout', 'polyomino', 'polyomino'] + C09.STYLES
 MAGS = [6, 30, 1000, 1 << 20, 1 << 25, 1 << 30, 1 << 38, 1 << 36]
 
 
